@@ -60,8 +60,12 @@ def in_domain(c):
 
 
 def run(ctx):
-    ctx.translate(['Defaults.v', 'RetryArms.v'])
-    models_ok = ctx.build_models(['Base.Show', 'Model.Retry', 'Spec.RetrySpec', 'Gen.RetryArms', 'Model.RetryTask'])
+    ctx.translate(['Defaults.v'])
+    models_ok = ctx.build_models(['Base.Show', 'Model.Retry', 'Spec.RetrySpec'])
+    # the task model is defined from the generated table of retry-strategy calls per arm: when the translator does not
+    # recognise the source (or the model no longer compiles) the tie is reported as broken and the live task scenarios
+    # are still judged against the Spec alone
+    TASK_MODEL_OK[0] = bool(ctx.translate(['RetryArms.v'])) and ctx.build_models(['Gen.RetryArms', 'Model.RetryTask'])
     # the composed client front-end rests on p4's task model and the TLS tables: regenerate, build; if that fails the
     # tie is reported as broken and the scenarios are still judged against the Spec and the RetryTask model
     FRONT_OK[0] = bool(ctx.translate(['SessionErrors.v', 'TlsVersions.v', 'TlsModes.v'])) and ctx.build_models(['Model.ClientFront'])
@@ -128,6 +132,12 @@ TASK_FN = ('fun c : variant * N * N * list tevent * list op => let \'(v, mn, mx,
            'show_list (fun x => x) "," (flat_map (fun x => match x with OAnnounce AfterFailedConnect d => ["F" ++ show_N d] | OAnnounce AfterDisconnect d => ["D" ++ show_N d] | _ => [] end) o) end) '
            '++ "|" ++ (match trun v (tinit mn mx) evs with None => "PANIC" | Some (_, o) => show_list show_N "," (armed o) end) '
            '++ "|" ++ show_list show_N "," (somes (spec mn mx 0 ops))')
+# Spec-only evaluation (no Gen, no task model)
+TASK_REQ_SPEC = ['Base.Show', 'Model.Retry', 'Spec.RetrySpec']
+TASK_T_SPEC = 'N * N * list op'
+TASK_FN_SPEC = ('fun c : N * N * list op => let \'(mn, mx, ops) := c in '
+                '"NOMODEL|NOMODEL|" ++ show_list show_N "," (somes (spec mn mx 0 ops))')
+TASK_MODEL_OK = [True]
 MS = 10**6
 
 
@@ -210,7 +220,7 @@ def task_cases(ctx, n):
     return cases
 
 
-def task_to_coq(c):
+def task_to_coq(c, spec_only=False):
     variant, mn, mx, script = c
     tls = variant.startswith('tls')
     evs, ops = [], []
@@ -245,6 +255,8 @@ def task_to_coq(c):
         else:
             evs += ['AttemptOk', 'Lost LIo', 'Elapsed']  # connected, then lost (the peer closed: an I/O error)
             ops += ['Reset', 'Disc']
+    if spec_only:
+        return f'({mn * MS}, {mx * MS}, [{";".join(ops)}])'
     model_variant = {'rtu': 'SerialClient', 'rtuserver': 'RtuServer'}.get(variant, 'TcpClient')
     return f'({model_variant}, {mn * MS}, {mx * MS}, [{";".join(evs)}], [{";".join(ops)}])'
 
@@ -268,8 +280,12 @@ def task_eval(ctx, cases):
             res = ctx.harness('retrytask', [f'{v} {mn} {mx} {sc}' for v, mn, mx, sc in (cases[k] for k in ix)], shards=shards, timeout=600)
             for k, r in zip(ix, res):
                 impl[k] = r
-    both = ctx.coq_eval(TASK_REQ, TASK_FN, [task_to_coq(actual_case(c, i)) for c, i in zip(cases, impl)], case_type=TASK_T,
-                        preamble='Local Open Scope string_scope.', per_shard=40)
+    if TASK_MODEL_OK[0]:
+        both = ctx.coq_eval(TASK_REQ, TASK_FN, [task_to_coq(actual_case(c, i)) for c, i in zip(cases, impl)], case_type=TASK_T,
+                            preamble='Local Open Scope string_scope.', per_shard=40)
+    else:
+        both = ctx.coq_eval(TASK_REQ_SPEC, TASK_FN_SPEC, [task_to_coq(actual_case(c, i), spec_only=True) for c, i in zip(cases, impl)], case_type=TASK_T_SPEC,
+                            preamble='Definition somes (l : list (option N)) : list N := flat_map (fun x => match x with Some d => [d] | None => [] end) l.\nLocal Open Scope string_scope.', per_shard=40)
     # tcp / tls scenarios additionally through the composed client front-end model
     ix = [k for k, c in enumerate(cases) if c[0] == 'tcp' or c[0].startswith('tls')]
     if ix and FRONT_OK[0]:
@@ -294,7 +310,9 @@ def task_judge(i, b):
     kinds = ','.join(f[:-1] for f in fields)
     if values != spec:
         return ('task.announced-delays-differ-from-spec', f'announced {kinds} but the Spec gives {spec}')
-    if values != armed or (model and kinds != model):
+    if model == 'NOMODEL':
+        pass
+    elif values != armed or (model and kinds != model):
         return ('task.model-differs-from-impl', f'announced {kinds} but the model gives {model or armed}')
     if front is not None and kinds != front:
         return ('task.client-front-model-differs-from-impl', f'announced {kinds} but the composed client front-end model gives {front}')
